@@ -22,10 +22,9 @@
       never been called, then b started after the call was made and (unless
       cancelled before reading) read a version >= all earlier edits.
    S4 a Cancel returns only after every build that had started before the call
-      has ended  -- unless a Dispose call was made before that return.
+      has ended.
    S5 a Dispose returns only when no build is running, and no build event
-      happens after that return  -- unless another Dispose call was made
-      before that return.
+      happens after a Dispose returned.
    S6 a Rebuild (Watch) called after some Dispose returned yields the empty
       result (an error).
    S7 a result says "canceled" only if Cancel was called before the build ended.
@@ -42,8 +41,7 @@ Record pinfo := mkP {
   p_next : nat;         (* number of builds started when the call was made *)
   p_quiet : bool;       (* no other Rebuild pending, Watch never called *)
   p_ret : list nat;     (* builds already returned to somebody when the call was made *)
-  p_dispRet : bool;     (* some Dispose had returned when the call was made *)
-  p_sole : bool         (* Dispose: no other Dispose call so far *) }.
+  p_dispRet : bool      (* some Dispose had returned when the call was made *) }.
 
 Record mon := mkMon {
   m_ncalls : nat;
@@ -54,11 +52,11 @@ Record mon := mkMon {
   m_end : list (nat * bool);          (* ended builds and their outcome *)
   m_ret : list nat;                   (* builds returned by some Rebuild *)
   m_pend : list pinfo;
-  m_dispCalled : bool; m_dispRet : bool; m_dispEff : bool;
+  m_dispCalled : bool; m_dispRet : bool;
   m_watchCalled : bool; m_watchOk : bool; m_cancelCalled : bool;
   m_edits : nat }.
 
-Definition mon0 : mon := mkMon 0 0 None false [] [] [] [] false false false false false false 0.
+Definition mon0 : mon := mkMon 0 0 None false [] [] [] [] false false false false false 0.
 
 Definition op_eqb (a b : op) : bool :=
   match a, b with
@@ -85,15 +83,13 @@ Fixpoint remove_pend (c : nat) (l : list pinfo) : list pinfo :=
   | p :: r => if Nat.eqb (p_cid p) c then r else p :: remove_pend c r
   end.
 Definition rebuild_pending (l : list pinfo) : bool := existsb (fun p => op_eqb (p_op p) OpRebuild) l.
-Definition unsole (p : pinfo) : pinfo :=
-  mkP (p_cid p) (p_op p) (p_edits p) (p_next p) (p_quiet p) (p_ret p) (p_dispRet p) false.
 
 Definition optnat_eqb (a b : option nat) : bool :=
   match a, b with Some x, Some y => Nat.eqb x y | None, None => true | _, _ => false end.
 
 Definition upd_pend m l :=
   mkMon (m_ncalls m) (m_next m) (m_run m) (m_loaded m) (m_load m) (m_end m) (m_ret m) l
-        (m_dispCalled m) (m_dispRet m) (m_dispEff m) (m_watchCalled m) (m_watchOk m) (m_cancelCalled m) (m_edits m).
+        (m_dispCalled m) (m_dispRet m) (m_watchCalled m) (m_watchOk m) (m_cancelCalled m) (m_edits m).
 
 (* one event; None = the history violates the specification *)
 Definition mon_step (m : mon) (l : label) : option mon :=
@@ -101,33 +97,32 @@ Definition mon_step (m : mon) (l : label) : option mon :=
   | LTau => Some m
   | LEdit =>
       Some (mkMon (m_ncalls m) (m_next m) (m_run m) (m_loaded m) (m_load m) (m_end m) (m_ret m) (m_pend m)
-                  (m_dispCalled m) (m_dispRet m) (m_dispEff m) (m_watchCalled m) (m_watchOk m) (m_cancelCalled m) (S (m_edits m)))
+                  (m_dispCalled m) (m_dispRet m) (m_watchCalled m) (m_watchOk m) (m_cancelCalled m) (S (m_edits m)))
   | LCall c o =>
       if negb (Nat.eqb c (m_ncalls m)) then None else
       let p := mkP c o (m_edits m) (m_next m)
                    (negb (rebuild_pending (m_pend m)) && negb (m_watchCalled m))
-                   (m_ret m) (m_dispRet m) (negb (m_dispCalled m)) in
-      let pend := match o with OpDispose => map unsole (m_pend m) | _ => m_pend m end in
-      Some (mkMon (S c) (m_next m) (m_run m) (m_loaded m) (m_load m) (m_end m) (m_ret m) (p :: pend)
-                  (m_dispCalled m || op_eqb o OpDispose) (m_dispRet m) (m_dispEff m)
+                   (m_ret m) (m_dispRet m) in
+      Some (mkMon (S c) (m_next m) (m_run m) (m_loaded m) (m_load m) (m_end m) (m_ret m) (p :: m_pend m)
+                  (m_dispCalled m || op_eqb o OpDispose) (m_dispRet m)
                   (m_watchCalled m || op_eqb o OpWatch) (m_watchOk m) (m_cancelCalled m || op_eqb o OpCancel) (m_edits m))
   | LStart b =>
       if Nat.eqb b (m_next m) && (match m_run m with None => true | Some _ => false end)      (* S1 *)
-         && negb (m_dispEff m)                                                              (* S5 *)
+         && negb (m_dispRet m)                                                              (* S5 *)
          && (rebuild_pending (m_pend m) || m_watchCalled m)                                 (* S8 *)
       then Some (mkMon (m_ncalls m) (S b) (Some b) false (m_load m) (m_end m) (m_ret m) (m_pend m)
-                       (m_dispCalled m) (m_dispRet m) (m_dispEff m) (m_watchCalled m) (m_watchOk m) (m_cancelCalled m) (m_edits m))
+                       (m_dispCalled m) (m_dispRet m) (m_watchCalled m) (m_watchOk m) (m_cancelCalled m) (m_edits m))
       else None
   | LLoad b v =>
       if optnat_eqb (m_run m) (Some b) && negb (m_loaded m) && Nat.eqb v (m_edits m)          (* S1 *)
       then Some (mkMon (m_ncalls m) (m_next m) (m_run m) true ((b, v) :: m_load m) (m_end m) (m_ret m) (m_pend m)
-                       (m_dispCalled m) (m_dispRet m) (m_dispEff m) (m_watchCalled m) (m_watchOk m) (m_cancelCalled m) (m_edits m))
+                       (m_dispCalled m) (m_dispRet m) (m_watchCalled m) (m_watchOk m) (m_cancelCalled m) (m_edits m))
       else None
   | LEnd b c =>
       if optnat_eqb (m_run m) (Some b)                                                       (* S1 *)
          && (negb c || m_cancelCalled m)                                                    (* S7 *)
       then Some (mkMon (m_ncalls m) (m_next m) None false (m_load m) ((b, c) :: m_end m) (m_ret m) (m_pend m)
-                       (m_dispCalled m) (m_dispRet m) (m_dispEff m) (m_watchCalled m) (m_watchOk m) (m_cancelCalled m) (m_edits m))
+                       (m_dispCalled m) (m_dispRet m) (m_watchCalled m) (m_watchOk m) (m_cancelCalled m) (m_edits m))
       else None
   | LRet c o v =>
       match find_pend c (m_pend m) with
@@ -146,26 +141,22 @@ Definition mon_step (m : mon) (l : label) : option mon :=
                  && (negb (p_quiet p) ||                                                    (* S3 *)
                      ((p_next p <=? b) && match ver with Some x => p_edits p <=? x | None => true end))
               then Some (mkMon (m_ncalls m) (m_next m) (m_run m) (m_loaded m) (m_load m) (m_end m) (b :: m_ret m) pend
-                               (m_dispCalled m) (m_dispRet m) (m_dispEff m) (m_watchCalled m) (m_watchOk m) (m_cancelCalled m) (m_edits m))
+                               (m_dispCalled m) (m_dispRet m) (m_watchCalled m) (m_watchOk m) (m_cancelCalled m) (m_edits m))
               else None
           | OpCancel, RvUnit =>
-              if m_dispCalled m || (match m_run m with Some b => p_next p <=? b | None => true end)   (* S4 *)
+              if (match m_run m with Some b => p_next p <=? b | None => true end)            (* S4 *)
               then Some (upd_pend m pend) else None
           | OpDispose, RvUnit =>
-              if p_sole p then
-                match m_run m with
-                | Some _ => None                                                            (* S5 *)
-                | None =>
-                    Some (mkMon (m_ncalls m) (m_next m) (m_run m) (m_loaded m) (m_load m) (m_end m) (m_ret m) pend
-                                (m_dispCalled m) true true (m_watchCalled m) (m_watchOk m) (m_cancelCalled m) (m_edits m))
-                end
-              else
-                Some (mkMon (m_ncalls m) (m_next m) (m_run m) (m_loaded m) (m_load m) (m_end m) (m_ret m) pend
-                            (m_dispCalled m) true (m_dispEff m) (m_watchCalled m) (m_watchOk m) (m_cancelCalled m) (m_edits m))
+              match m_run m with
+              | Some _ => None                                                              (* S5 *)
+              | None =>
+                  Some (mkMon (m_ncalls m) (m_next m) (m_run m) (m_loaded m) (m_load m) (m_end m) (m_ret m) pend
+                              (m_dispCalled m) true (m_watchCalled m) (m_watchOk m) (m_cancelCalled m) (m_edits m))
+              end
           | OpWatch, RvUnit =>
               if negb (p_dispRet p) && negb (m_watchOk m)                                    (* S6, S9 *)
               then Some (mkMon (m_ncalls m) (m_next m) (m_run m) (m_loaded m) (m_load m) (m_end m) (m_ret m) pend
-                               (m_dispCalled m) (m_dispRet m) (m_dispEff m) (m_watchCalled m) true (m_cancelCalled m) (m_edits m))
+                               (m_dispCalled m) (m_dispRet m) (m_watchCalled m) true (m_cancelCalled m) (m_edits m))
               else None
           | OpWatch, RvErr =>
               if m_dispCalled m || m_watchOk m then Some (upd_pend m pend) else None        (* S9 *)
